@@ -34,10 +34,14 @@ func (a *Act) instr(st *State, ins ssa.Instruction) {
 		stT := derefType(x.X.Type())
 		ft := derefType(x.Type())
 		if p.Loc != nil {
-			if p.Loc.Local == nil {
-				fail("field address of leaf location")
-			}
 			path := append(append([]int{}, p.Loc.Path...), x.Field)
+			if p.Loc.Local == nil {
+				if p.Loc.RootT == nil {
+					fail("field address of leaf location")
+				}
+				a.vals[x] = Val{Loc: &Loc{Heap: p.Loc.Heap, HSort: p.Loc.HSort, Ref: p.Loc.Ref, RootT: p.Loc.RootT, Path: path, Elem: ft}, Typ: x.Type()}
+				return
+			}
 			a.vals[x] = Val{Loc: &Loc{Local: p.Loc.Local, Path: path}, Typ: x.Type()}
 			return
 		}
@@ -64,6 +68,11 @@ func (a *Act) instr(st *State, ins ssa.Instruction) {
 			s := a.term(x.X)
 			a.oblige(st, "bounds", "", x.Pos(), "index in range", and(app("<=", "0", idx), app("<", idx, app("slen", s))))
 			st.assume(and(app("<=", "0", idx), app("<", idx, app("slen", s))))
+			if isStructType(xt.Elem()) {
+				eh := a.elemHeap(xt.Elem())
+				a.vals[x] = Val{Loc: &Loc{Heap: eh.name, HSort: eh.sort, Ref: app("saddr", s, idx), RootT: xt.Elem(), Elem: xt.Elem()}, Typ: x.Type()}
+				return
+			}
 			a.set(x, app("saddr", s, idx))
 		case *types.Pointer:
 			arr := xt.Elem().Underlying().(*types.Array)
@@ -73,6 +82,11 @@ func (a *Act) instr(st *State, ins ssa.Instruction) {
 			}
 			a.checkNonNil(st, p.T, x.Pos(), "array")
 			a.oblige(st, "bounds", "", x.Pos(), "index in range", and(app("<=", "0", idx), app("<", idx, intLit(arr.Len()))))
+			if isStructType(arr.Elem()) {
+				eh := a.elemHeap(arr.Elem())
+				a.vals[x] = Val{Loc: &Loc{Heap: eh.name, HSort: eh.sort, Ref: app("elem", p.T, idx), RootT: arr.Elem(), Elem: arr.Elem()}, Typ: x.Type()}
+				return
+			}
 			a.set(x, app("elem", p.T, idx))
 		default:
 			fail("IndexAddr on %s", x.X.Type())
@@ -157,11 +171,11 @@ func (a *Act) instr(st *State, ins ssa.Instruction) {
 		a.oblige(st, "slice", "make", x.Pos(), "make: 0 <= len <= cap", and(app("<=", "0", ln), app("<=", ln, cp)))
 		r := st.newRef()
 		if ln != "0" {
-			for _, lh := range a.leafHeaps(et) {
+			for _, lh := range a.elemHeaps(et) {
 				old := st.heap(lh.name, lh.sort)
 				nh := a.u.D.Fresh(lh.name, lh.sort)
 				st.setHeap(lh.name, lh.sort, nh)
-				zero := a.zeroOfHeap(lh.sort)
+				zero := d.Zero(et)
 				a.u.Fact(fmt.Sprintf("(forall ((r Ref)) (! (=> (not (= (rid r) (rid %s))) (= (select %s r) (select %s r))) :pattern ((select %s r))))", r, nh, old, nh))
 				a.u.Fact(fmt.Sprintf("(forall ((i Int)) (! (= (select %s %s) %s) :pattern ((select %s %s))))", nh, lh.addr(app("elem", r, "i")), zero, nh, lh.addr(app("elem", r, "i"))))
 			}
@@ -510,7 +524,7 @@ func (a *Act) next(st *State, x *ssa.Next) {
 		rl := d.Fun("rune_len", []string{"Str", "Int"}, "Int")
 		ra := d.Fun("rune_at", []string{"Str", "Int"}, "Int")
 		n := app(rl, s, pos)
-		st.assume(implies(ok, and(app(">=", n, "1"), app("<=", app("+", pos, n), app("str_len", s)))))
+		st.assume(implies(ok, and(app(">=", n, "1"), app("<=", app("+", pos, n), app("str_len", s)), app(">=", app(ra, s, pos), "0"))))
 		np := d.Fresh("strpos", "Int")
 		a.u.Fact(eq(np, ite(ok, app("+", pos, n), pos)))
 		a.vals[x] = Val{Tuple: []Val{{T: ok, Typ: types.Typ[types.Bool]}, {T: pos, Typ: tup.At(1).Type()}, {T: app(ra, s, pos), Typ: tup.At(2).Type()}}, Typ: x.Type()}
